@@ -12,6 +12,7 @@ package c03
 
 import (
 	"fmt"
+	"math"
 	"math/big"
 	"math/rand"
 	"strconv"
@@ -44,21 +45,26 @@ func safeText(t string) bool {
 
 type textInfo struct {
 	class string   // int (fits int64 or uint64), bigint, float, floatrange, bool, word
-	v     *big.Int // int, bigint
-	f     float64  // float
+	v     *big.Int // int, bigint: the integer in Go's base-0 syntax
+	f     float64  // float; int, bigint when hasF: what the text means as a floating point text
+	hasF  bool
 }
 
 func classifyText(t string) textInfo {
-	if v, _, _, _ := parseIntAny(t); v != nil {
-		return textInfo{class: "int", v: v}
-	}
 	if v, ok := new(big.Int).SetString(t, 0); ok {
-		return textInfo{class: "bigint", v: v}
+		ti := textInfo{class: "int", v: v}
+		if !fitsI64(v) && !fitsU64(v) {
+			ti.class = "bigint"
+		}
+		if f, err := strconv.ParseFloat(t, 64); err == nil {
+			ti.f, ti.hasF = f, true
+		}
+		return ti
 	}
 	f, err := strconv.ParseFloat(t, 64)
 	switch {
 	case err == nil:
-		return textInfo{class: "float", f: f}
+		return textInfo{class: "float", f: f, hasF: true}
 	case isRange(err):
 		return textInfo{class: "floatrange"}
 	}
@@ -66,6 +72,18 @@ func classifyText(t string) textInfo {
 		return textInfo{class: "bool"}
 	}
 	return textInfo{class: "word"}
+}
+
+// textSyntax names the spelling of a numeral for signatures: an explicit plus
+// sign first (no unsigned parser takes it), then the spelling of the digits.
+func textSyntax(t string) string {
+	if strings.HasPrefix(t, "+") {
+		if rest := stringSyntax(t[1:]); rest != "dec" {
+			return "plus-" + rest
+		}
+		return "plus"
+	}
+	return stringSyntax(t)
 }
 
 // exactValue reads a numeral exactly: integers in Go's base-0 syntax of any
@@ -108,17 +126,28 @@ func expectText(s src, t *tkind) expectation {
 		return e
 	}
 	ti := classifyText(s.s)
+	isInt := ti.class == "int" || ti.class == "bigint"
 	switch t.class {
 	case cString:
 		str := s.s
 		switch ti.class {
 		case "int":
-			return expectation{mode: mExact, exactv: ti.v}
+			x := expectation{mode: mExact, exactv: ti.v}
+			if ti.hasF && ti.f != nearestFloat(ti.v) {
+				// "012": ten as an integer text, twelve as a floating point text
+				f := ti.f
+				x.fstr = &f
+			}
+			return x
 		case "bigint":
-			// no integer setting type holds it: the float64 next to it is the
-			// other reading a numeral has
-			f := nearestFloat(ti.v)
-			return expectation{mode: mExact, str: &str, exactv: ti.v, fstr: &f}
+			// no integer setting type holds it: the float64 strconv reads it as
+			// is the other reading such a numeral has
+			x := expectation{mode: mExact, str: &str, exactv: ti.v}
+			if ti.hasF {
+				f := ti.f
+				x.fstr = &f
+			}
+			return x
 		case "float":
 			f := ti.f
 			return expectation{mode: mExact, str: &str, fstr: &f}
@@ -127,11 +156,37 @@ func expectText(s src, t *tkind) expectation {
 		}
 		return e
 	case cBool:
-		switch ti.class {
-		case "int", "bigint", "float", "floatrange":
+		if isInt || ti.class == "float" || ti.class == "floatrange" {
 			return unpinned
 		}
 		return e
+	case cInt, cUint:
+		switch ti.class {
+		case "int":
+			// by value: "+9223372036854775808" is 2^63 although neither
+			// ParseInt (range) nor ParseUint (sign) reads it
+			x := expectNum(num{v: ti.v}, t)
+			x.strict = false
+			if x.mode == mExact && e.mode != mExact {
+				x.mode = mEither
+			}
+			return x
+		case "bigint":
+			// beyond every 64 bit type, so beyond the target's range; the float64
+			// next to it may be inside (-2^63-1 -> -2^63): classified on its own
+			x := errExp("integer-beyond-64-bits")
+			if ti.hasF && !math.IsInf(ti.f, 0) {
+				x.neighbour = truncBig(ti.f)
+			}
+			return x
+		}
+	case cFloat:
+		if isInt && e.mode != mErr {
+			// the integer reading next to the floating point reading ("012", "0x10")
+			if alt := expectNum(num{v: ti.v}, t); alt.mode != mErr {
+				e.flts = append(e.flts, alt.flts...)
+			}
+		}
 	}
 	if ti.class == "bool" {
 		return unpinned
